@@ -44,3 +44,14 @@ impl PostingsBuilder {
         Postings { data: self.data }
     }
 }
+
+#[cfg(feature = "verif")]
+impl Postings {
+    pub const fn verif_from_data(data: Vec<u32>) -> Self {
+        Self { data }
+    }
+
+    pub fn verif_data(&self) -> &[u32] {
+        &self.data
+    }
+}
